@@ -24,15 +24,16 @@ Flat(ss) == LET F[n \in 0..Len(ss)] == IF n = 0 THEN <<>> ELSE F[n - 1] \o ss[n]
 Init == /\ ty \in Types /\ mis \in 0..7
         /\ IF Big THEN cnt = 1 /\ \E p \in PatsBig(ty.sz) : mem = p
            ELSE /\ cnt \in 0..MaxN
-                /\ \E ps \in [1..cnt -> PatsSmall(ty.sz)] : mem = Flat(ps)
+                (* 2-byte characters: the memory may continue after the n items (one more unit) *)
+                /\ \E ext \in (IF ty.cls = "char" /\ ty.sz = 2 THEN {0, 1} ELSE {0}) :
+                     \E ps \in [1..(cnt + ext) -> PatsSmall(ty.sz)] : mem = Flat(ps)
         /\ out = ImplUnpack(ty, mis, mem, cnt)          \* what the implementation model returns
 Next == UNCHANGED vars
 Spec == Init /\ [][Next]_vars
 
 (* the fast paths agree with element-wise reading: every item type class x start misalignment x contents *)
-FastEqualsGeneric == out \in IdealResults(ty, mem, cnt) \/ KnownChar32Defect(ty, mem, cnt)
-(* the known defect is real in the model: without the exemption TLC reports it (run by the check) *)
-FastEqualsGenericStrict == out \in IdealResults(ty, mem, cnt)
+FastEqualsGeneric == out \in IdealResults(ty, mem, cnt)
+UnitsExact == UnitsAreItems(ty, mem, cnt, out)
 (* the implementation's element conversion is the ideal's reading *)
 ConvertIsElem == cnt > 0 => ConvertToObject(ty, mem, 0) = ElemAt(ty, mem, 0)
 (* fast paths are really taken (non-vacuity of the alignment split) *)
